@@ -15,6 +15,36 @@ NOTE_COMMON = (
     "subset.")
 
 CHECKS = {
+    "C02": dict(
+        technique="template extraction by partial evaluation of the code "
+                  "generator + grammar-closure worklist with compile() as "
+                  "compile-fail witness",
+        category="other",
+        text="Decides syntactic validity of the generated Python for ALL "
+             "programs by induction on the parse tree: every element/modifier/"
+             "token template is compiled in three block contexts and shown "
+             "context-free; every structure skeleton (obtained by interpreting "
+             "the current transpile.py on symbolic branches) is compiled with "
+             "every admissible break/recurse lowering in every reachable hole "
+             "state (fixpoint over parse parent x python def/loop context); "
+             "the generator must not raise for any grammar-derived shape; the "
+             "STRING escaping loop is checked over the lexer's value language. "
+             "Unrolling bounds: If branches 5/8, list items 2/4, parameters "
+             "2/3, loop nesting per def 2/3 (uniform beyond).",
+        ref="DESIGN.md §3 C02"),
+    "C12": dict(
+        technique="stack-height (typestate) analysis over the structured CFG "
+                  "of every extracted template x hole state, and of python "
+                  "functions pushing ctx lists",
+        category="other",
+        text="Decides for ALL normally terminating programs that the four "
+             "bookkeeping lists return to their depth: heights must agree at "
+             "merges, loop back-edges, break/continue (loop-entry height), "
+             "return/fall-through of every def (zero) and skeleton exit, for "
+             "every skeleton x admissible early exit x reachable hole state, "
+             "every table template and every python function that pushes or "
+             "pops a list. Exception edges excluded.",
+        ref="DESIGN.md §3 C12"),
     "C20": dict(
         technique="constant folding of code page / tables + abstract lexer "
                   "head-dispatch table, exhaustive over all keys",
